@@ -1609,6 +1609,12 @@ const OTHER_SCRIPTS: &[&[u8; 4]] = &[
     b"arab", b"syrc", b"deva", b"beng", b"guru", b"gujr", b"orya", b"taml", b"telu", b"knda", b"mlym", b"sinh", b"khmr",
     b"mymr", b"mym2", b"thai", b"lao ", b"latn", b"cyrl", b"grek", b"DFLT", b"dev2", b"bng2", b"mlm2", b"hani", b"kana",
     b"hebr", b"mong", b"tibt",
+    // every "version 2" Indic tag of the registry and a wider sample of registered script tags
+    // (after seeded miss C02-12: a tag the library newly learns to dispatch on must be in the pool)
+    b"gur2", b"gjr2", b"ory2", b"tml2", b"tel2", b"knd2", b"armn", b"geor", b"ethi", b"hang", b"bopo", b"nko ", b"thaa",
+    b"mand", b"samr", b"adlm", b"rohg", b"phag", b"cham", b"java", b"bali", b"sund", b"lana", b"tavt", b"talu", b"lepc",
+    b"limb", b"mtei", b"cakm", b"sylo", b"math", b"musc", b"zinh", b"zyyy", b"zzzz", b"brai", b"cher", b"cans", b"ogam",
+    b"runr", b"copt", b"goth", b"yi  ",
 ];
 
 const WELL_KNOWN_LANGS: &[&[u8; 4]] = &[
